@@ -11,23 +11,25 @@ class _Shim:
     """what vlib.run_harness touches on a ctx"""
     def __init__(self): self.cov, self.broken, self.last_sanitizer_report = {}, [], None
 
-def _one(ctx, exe, job, judge):
+def _one(ctx, exe, job, judge, compare_model=True):
     binary, ops, args = job
     sh = _Shim()
     impl = vlib.run_harness(sh, binary, ops, args=args)
-    model = vlib.run_driver(ctx, exe, "model", ops)
+    # compare_model=False: ops of a part of the code that has no executable model (e.g. behind powf); they are only
+    # judged by the Spec on the implementation's observation, the "model" column repeats the implementation
+    model = vlib.run_driver(ctx, exe, "model", ops) if compare_model else list(impl)
     verdicts = vlib.run_driver(ctx, exe, "judge", [o + "\t" + r for o, r in zip(ops, impl)]) if judge else ["ok"] * len(ops)
     return sh, impl, model, verdicts
 
 def chunks(binary, ops, size, args=()):
     return [(binary, ops[i:i + size], tuple(args)) for i in range(0, len(ops), size)]
 
-def correspond_parallel(ctx, exe, jobs, label="", judge=True, workers=None):
+def correspond_parallel(ctx, exe, jobs, label="", judge=True, workers=None, compare_model=True):
     """jobs: [(binary, [op lines], harness_args)]. Returns (ops, impl, model) concatenated in job order."""
     jobs = [j for j in jobs if j[1]]
     if not jobs: return [], [], []
     with concurrent.futures.ThreadPoolExecutor(max_workers=workers or ctx.jobs) as ex:
-        results = list(ex.map(lambda j: _one(ctx, exe, j, judge), jobs))
+        results = list(ex.map(lambda j: _one(ctx, exe, j, judge, compare_model), jobs))
     known = vlib.load_known()
     all_ops, all_impl, all_model, ndiff = [], [], [], 0
     for (binary, ops, args), (sh, impl, model, verdicts) in zip(jobs, results):
@@ -51,6 +53,7 @@ def correspond_parallel(ctx, exe, jobs, label="", judge=True, workers=None):
                     ctx.broken.append(("correspondence", op[:300], "impl=%s | model=%s" % (a[:300], b[:300])))
         all_ops += ops; all_impl += impl; all_model += model
     ctx.cov["evaluations"] = ctx.cov.get("evaluations", 0) + len(all_ops)
+    if not compare_model: ctx.cov["judged_only_ops"] = ctx.cov.get("judged_only_ops", 0) + len(all_ops)
     ctx.cov["correspondence_diffs"] = ctx.cov.get("correspondence_diffs", 0) + ndiff
     return all_ops, all_impl, all_model
 
